@@ -27,8 +27,12 @@ CONSTANTS
   Ops1, Ops2,       \* operator kinds enabled for the first / the second step
   NestDepths,       \* depths 2^k of Nest
   SpliceOther,      \* TRUE: splice with every seed of the format, FALSE: with itself only
+  SpliceWindow,     \* splice resumes at most this many fields away from where it cut
+  StructAllSeeds,   \* FALSE: the structural JOSE operators skip the non-representative full JSON seeds
   RandLens, NRand,  \* purely random inputs: lengths and how many per length
   NodeIdx,          \* DER node indices for the TLV operators (in addition to the position classes)
+  ByteOpsAllSeeds,  \* FALSE: the byte-level operators of JWS/JWE run on representative seeds only (they are
+                    \* blind to the algorithm), the structural ones on every seed
   PanicOnForbidden  \* named deviation (non-vacuity): a decoder that panics on a forbidden marker
 
 VARIABLES pc, fmt, seed, ld, wrap, sym, nmut, hist, returned
@@ -261,7 +265,11 @@ JwsSeedSet == {[alg |-> a, form |-> fo] : a \in JwsAlgs, fo \in {"compact", "ful
               \cup {[alg |-> "HS256", form |-> "fullhdr"], [alg |-> "ES256", form |-> "fullhdr"], [alg |-> "RS256", form |-> "multi"]}
 JweSeedSet == {[alg |-> a, enc |-> e, form |-> fo] : a \in JweKeyAlgs, e \in {"A128GCM", "A128CBC-HS256"}, fo \in {"compact", "full"}}
               \cup {[alg |-> a, enc |-> e, form |-> "compact"] : a \in {"dir", "A256KW"}, e \in JweEncs}
-              \cup {[alg |-> a, enc |-> "A128GCM", form |-> fo] : a \in {"dir", "A128KW", "ECDH-ES", "RSA-OAEP"}, fo \in {"fullaad", "zip", "multi"}}
+              \cup {[alg |-> a, enc |-> "A128GCM", form |-> fo] : a \in {"dir", "A128KW", "ECDH-ES", "RSA-OAEP"}, fo \in {"fullaad", "zip"}}
+              \cup {[alg |-> a, enc |-> "A128GCM", form |-> "multi"] : a \in {"A128KW", "RSA-OAEP", "ECDH-ES+A128KW", "A256GCMKW"}}
+              \* RFC 7516 7.2.1: "protected" is optional, all header parameters may be unprotected (written by the replayer
+              \* with AES-GCM over an empty AAD: the library's encrypter always protects the header)
+              \cup {[alg |-> "dir", enc |-> "A128GCM", form |-> "unprotected"], [alg |-> "A128KW", enc |-> "A128GCM", form |-> "perrecipient"]}
 JwkSeedSet == {[name |-> n] : n \in {"rsa.pub", "rsa.priv", "ec256.pub", "ec256.priv", "ec384.pub", "ec384.priv",
                                        "ec521.pub", "ec521.priv", "oct", "ec256.x5c", "set"}}
 OcspRespSeedSet == {[name |-> n] : n \in {"vec.cert", "vec.nocert", "vec.ext", "vec.critext", "vec.multi", "vec.error",
@@ -403,7 +411,9 @@ DropFieldA ==
 SpliceA ==
   /\ CanMutate /\ fmt \in LdFormats /\ "splice" \in OpsNow
   /\ \E o \in (IF SpliceOther THEN {Seeds(fmt)[i].ld : i \in 1..Len(Seeds(fmt))} ELSE {ld}) :
-       \E k1 \in 0..Len(ld) : \E k2 \in 1..Len(o) + 1 : Step(Splice(ld, k1, o, k2), H("splice", k1, k2, ""))
+       \E k1 \in 0..Len(ld) : \E k2 \in 1..Len(o) + 1 :
+          /\ k2 <= k1 + 1 + SpliceWindow /\ k1 <= k2 + SpliceWindow
+          /\ Step(Splice(ld, k1, o, k2), H("splice", k1, k2, ""))
 NestA ==
   /\ CanMutate /\ fmt \in LdFormats /\ "nest" \in OpsNow /\ wrap = NoWrap
   /\ \E c \in Containers(fmt) : \E d \in NestDepths : \E cl \in Closings(d) :
@@ -420,6 +430,15 @@ TlvOps(p, n) ==
   {Y("tlvlen", p, v, n) : v \in TlvLenVals} \cup {Y("tlvtag", p, v, n) : v \in TlvTagVals}
   \cup {Y("tlvdrop", p, "", n), Y("tlvdup", p, "", n), Y("tlvempty", p, "", n)}
   \cup {Y("tlvnest", p, "d" , n + 1000 * d) : d \in NestDepths}
+\* seeds the byte-level operators run on
+Representative(f, sd) ==
+  \/ ByteOpsAllSeeds
+  \/ f \notin {"jws", "jwe"}
+  \/ f = "jws" /\ sd.alg \in {"RS256", "ES256", "HS256"}
+  \/ f = "jwe" /\ sd.enc = "A128GCM" /\ sd.alg \in {"dir", "RSA-OAEP", "ECDH-ES", "A128GCMKW", "A128KW"}
+ByteLevel(o) == o.o \in {"trunc", "set", "ins", "del", "dup", "splice", "nest"}
+Structural(o) == o.o \in {"fdrop", "fdup", "fset", "hset", "hdrop", "hmove"}
+StructSeed(f, sd) == StructAllSeeds \/ f \notin {"jws", "jwe"} \/ sd.form # "full" \/ Representative(f, sd)
 SymOpsOf(f) ==
   (IF "trunc" \in OpsNow THEN {Y("trunc", p, "", 0) : p \in PosClasses} ELSE {})
   \cup (IF "set" \in OpsNow THEN {Y("set", p, v, 0) : p \in PosClasses, v \in ByteVals} ELSE {})
@@ -443,7 +462,10 @@ SymOpsOf(f) ==
         ELSE {})
 SymMutate ==
   /\ CanMutate /\ fmt \in SymFormats
-  /\ \E o \in SymOpsOf(fmt) : SymStep(o)
+  /\ \E o \in SymOpsOf(fmt) :
+       /\ ByteLevel(o) => Representative(fmt, seed)
+       /\ Structural(o) => StructSeed(fmt, seed)
+       /\ SymStep(o)
 
 \* purely random input of a given length (the replayer draws it from its seed); n = length * 100 + index
 Randomize ==
